@@ -120,7 +120,10 @@ func (d *Digest) Sign(cert *certloader.Certificate) (*binpatch.PatchSet, error) 
 	if err := d.inz.WriteDirectory(&dirEnts, &endOfDir, false); err != nil {
 		return nil, err
 	}
-	patchset.Add(origDirLoc+int64(dirEnts.Len()), int64(endOfDir.Len()), endOfDir.Bytes())
+	// replace the whole old end-of-directory area: it may be longer than the
+	// new one (ZIP64 records that the rewritten directory does not need)
+	endLoc := origDirLoc + int64(dirEnts.Len())
+	patchset.Add(endLoc, d.inz.Size-endLoc, endOfDir.Bytes())
 	return patchset, nil
 }
 
